@@ -38,6 +38,7 @@ THEOREMS = [
     'Pyiga.Props.C09.boundary_quadrature_axes', 'Pyiga.Props.C09.boundary_quadrature_measure',
     # generic path with identity geometry = Kronecker path (Props/C09Generic.lean; imports Props.C01 of b-assembler)
     'Pyiga.Props.C09.generic_identity_mass_2d', 'Pyiga.Props.C09.generic_identity_stiffness_2d', 'Pyiga.Props.C09.generic_identity_mass_3d',
+    'Pyiga.Props.C09.generic_identity_stiffness_3d', 'Pyiga.Props.C09.generic_entry_mass_3d',
     'Pyiga.Props.C09.generic_entry_mass_2d', 'Pyiga.Props.C09.generic_entry_stiffness_2d',
 ]
 MODULES = ['Pyiga.Model.Galerkin', 'Pyiga.Proofs.Galerkin', 'Pyiga.Proofs.GalerkinAsm', 'Pyiga.Proofs.GalerkinKron', 'Pyiga.Proofs.GalerkinKron3', 'Pyiga.Proofs.GalerkinTprod', 'Pyiga.Proofs.GalerkinGeneric', 'Pyiga.Props.C09', 'Pyiga.Props.C09Generic']
